@@ -39,10 +39,27 @@ def indicator_check(program, built, solver, prims, leaves, job):
     inds = [d for d in program["decls"] if d["k"] == "new" and d["cls"] in (IND_CLS | OBJ_CLS)]
     has_obj = bool(built.pb.objectives)
     distinct_vals = set()
+    twins = program.get("same_value") or []
     for leaf in leaves:
         view = ref.View(program, leaf)
         unsched = any(not s for s in view.sched.values())
         sol = None
+        # indicators declared over the same resources in another order must take the same value in every model
+        for (i_a, i_b) in twins:
+            va, _na = ind_var(built, view.dd[i_a])
+            vb, _nb = ind_var(built, view.dd[i_b])
+            zs.push()
+            try:
+                zs.add(*ex.pins_of(prims, leaf))
+                zs.add(va != vb)
+                differ = zs.check() == z3.sat
+                vals = (zs.model().eval(va, model_completion=True).as_long(), zs.model().eval(vb, model_completion=True).as_long()) if differ else None
+            finally:
+                zs.pop()
+            if differ:
+                sig = {"dir": "indicator", "what": "depends-on-the-order-of-its-list", "cls": view.dd[i_a]["cls"], "with_unscheduled_task": unsched}
+                out.append((sig, {"program": program, "leaf": analysis._leaf_list(leaf), "expect": "indicator", "solver": {}, "indicator": _na,
+                                  "indicator_id": i_a, "reference_values": [vals[1]], "admitted_values": [vals[0]]}))
         if not has_obj:
             sol = analysis.solve_under_pins(solver, prims, leaf)
             if isinstance(sol, analysis.Raised):
@@ -152,6 +169,19 @@ def jobs(tier):
             for ts in ([fixed("a", 1, **ka), fixed("b", 2, **kb)], [var("a", max_duration=2, **ka), fixed("b", 1, **kb)]):
                 out.append(dict(post, program=prog(4, ts + [new(cls, "i1")]), family=cls))
                 out.append(dict(post, program=prog(4, ts + [new(cls, "i1", list_of_tasks=[R("b")])]), family=cls + "/list"))
+    # ... with priorities (tardiness is weighted by them) on mandatory and optional tasks
+    for cls in ("IndicatorTardiness", "IndicatorEarliness", "IndicatorNumberOfTardyTasks", "IndicatorMaximumLateness"):
+        for ob in (False, True):
+            ts = [fixed("a", 1, due_date=1, due_date_is_deadline=False, priority=3, optional=True),
+                  fixed("b", 2, due_date=2, due_date_is_deadline=False, priority=2, **({"optional": True} if ob else {}))]
+            out.append(dict(post, program=prog(4, ts + [new(cls, "i1")]), family=cls + "/priorities"))
+    # cost over a list that mixes plain and cumulative workers, in both orders
+    for order in (["w", "k"], ["k", "k2"], ["w", "k", "k2"]):
+        p_ = prog(3, [fixed("a", 1), fixed("b", 2), worker("w", cost=const_fn(2)), cumul("k", 2, cost=const_fn(4)), cumul("k2", 2, cost=const_fn(2)),
+                      req("a", "w"), req("b", "k"), req("a", "k2"), new("IndicatorResourceCost", "i1", list_of_resources=[R(x) for x in order]),
+                      new("IndicatorResourceCost", "i2", list_of_resources=[R(x) for x in reversed(order)])])
+        p_["same_value"] = [["i1", "i2"]]
+        out.append(dict(post, program=p_, family="cost/mixed-list"))
     # objective-created indicators
     for cls in ("ObjectiveMinimizeFlowtime", "ObjectivePriorities", "ObjectiveTasksStartEarliest", "ObjectiveTasksStartLatest", "ObjectiveMinimizeGreatestStartTime"):
         for ts in ([fixed("a", 1), fixed("b", 2, priority=2)], [fixed("a", 1, optional=True, priority=3), var("b", max_duration=2)],
